@@ -317,12 +317,13 @@ def digit_harnesses():
 
 
 PROPS["C04"] = dict(
-    jobs=[Job("ecc/" + c, ["C04/digits.go.tmpl"], params=dict(Curve=c, DigitHarnesses=digit_harnesses()), jobs=8, skip_quick="H_Digits_C9") for c in MSM_CURVES] +
+    jobs=[Job("ecc/" + c, ["C04/digits.go.tmpl"], params=dict(Curve=c, DigitHarnesses=digit_harnesses()), jobs=8, timeout_ms=90000,
+              skip_quick="H_Digits_C9|H_Digits_C7" if c == "bw6-633" else "H_Digits_C9") for c in MSM_CURVES] +
          [Job("ecc/" + c, ["C04/chunks.go.tmpl"], params=dict(Curve=c, C=4), label=c + "#chunk") for c in MSM_CURVES] +
          [Job("ecc/" + c, ["C04/msm_e2e.go.tmpl"], params=dict(Curve=c, MsmBits=10), label=c + "#e2e") for c in MSM_CURVES],
     level_text="Bounded proof for G1 of the 7 MSM curves, by components: (1) signed-digit recoding of partitionScalars, one lemma "
                "per chunk from an arbitrary incoming carry (cut at the loop head), for full-width scalars < r and every window size "
-               "c in 4..8 (9 in the thorough tier), plus the telescoping closing step for c in 4..16 and zero scalars; (2) the bucket "
+               "c in 4..8 (9, and 7 on bw6-633 whose bit-126 window lemma does not finish in the quick time limit, in the thorough tier), plus the telescoping closing step for c in 4..16 and zero scalars; (2) the bucket "
                "processor for one chunk with symbolic digits and (3) the Horner reduction over chunk totals in the free-module "
                "interpretation; (4) MultiExp end to end for two points with symbolic 10-bit scalars through the sequential schedule "
                "(semaphore path and default path), and its error reporting.",
